@@ -4,6 +4,7 @@ import (
 	"fmt"
 	"go/types"
 	"sync"
+	"time"
 
 	"golang.org/x/tools/go/ssa"
 )
@@ -111,6 +112,12 @@ const (
 	OInfeas   Outcome = "infeasible"
 )
 
+// Observation is the value of an assertion's left operand in concrete mode.
+type Observation struct {
+	Label string
+	Val   string
+}
+
 // AssertRec records the verdicts for one assertion label on one path.
 type AssertRec struct {
 	Label   string
@@ -185,6 +192,10 @@ type Exec struct {
 	lockOrder []*Event
 	nAssume int
 	knownOutcome, knownFrozen, knownRace string
+	deadline time.Time
+	knownSeen map[string]bool
+	Concrete map[string]string // concrete mode: assignment of the nondet inputs
+	Obs      []Observation
 	NoMerge bool
 	MergeBudget int
 	SkipInits bool
@@ -388,6 +399,9 @@ func (ex *Exec) step(g *G) {
 	if ex.steps > ex.MaxSteps {
 		panic(budgetExceeded{})
 	}
+	if ex.steps&0xfff == 0 && !ex.deadline.IsZero() && time.Now().After(ex.deadline) {
+		panic(budgetExceeded{})
+	}
 	f := g.frames[len(g.frames)-1]
 	in := f.block.Instrs[f.pc]
 	ex.exec(g, f, in)
@@ -548,6 +562,6 @@ func NewExec(p *Program, sol *Solver, fpMode bool, trace []bool, noMerge map[*ss
 		MaxSteps: 3000000, noMerge: noMerge, noMergeAlt: map[*ssa.BasicBlock]bool{},
 		Reach: map[string]bool{}, Info: map[string]string{},
 		globals: map[*ssa.Global]*Value{}, nondetSeen: map[string]bool{},
-		memAcc: map[*Value][]memAcc{}, stubs: map[string]bool{}, funcs: map[*ssa.Function]bool{},
+		knownSeen: map[string]bool{}, memAcc: map[*Value][]memAcc{}, stubs: map[string]bool{}, funcs: map[*ssa.Function]bool{},
 	}
 }
